@@ -16,6 +16,7 @@ package main
 import (
 	"context"
 	"fmt"
+	"hash/fnv"
 	"math/rand"
 	"net/http"
 	"net/http/httptest"
@@ -168,6 +169,19 @@ type c16Server struct {
 	db  *c16DB
 	eng *promql.Engine
 	log *c16ReqLog // nil: requests are not recorded (other servers)
+	vs  uint64     // seed of the response renderings of this server
+}
+
+// every response in a different legal rendering (key order inside the top-level object, "data" and samples; whitespace;
+// optional stats / warnings / infos; number formats), chosen from the request
+func (s *c16Server) variant(parts ...string) fpVariant {
+	h := fnv.New64a()
+	fmt.Fprintf(h, "%d", s.vs)
+	for _, p := range parts {
+		h.Write([]byte{0})
+		h.Write([]byte(p))
+	}
+	return fpVariantFrom(h.Sum64() >> 3)
 }
 
 // what pint actually asked for: every parameter that selects the evaluation instants
@@ -243,7 +257,7 @@ func (s *c16Server) ServeHTTP(w http.ResponseWriter, r *http.Request) {
 			for _, smp := range v {
 				out = append(out, fpSeries{Metric: smp.Metric.Map(), Vals: []float64{smp.F}})
 			}
-			fpWriteVector(w, ts.UnixMilli(), out)
+			fpWriteVectorV(w, ts.UnixMilli(), out, s.variant("instant", r.Form.Get("query")))
 		case promql.Scalar:
 			fpWriteJSON(w, fmt.Sprintf(`{"status":"success","data":{"resultType":"scalar","result":[%s,"%s"]}}`,
 				fpTs(v.T), strconv.FormatFloat(v.V, 'f', -1, 64)))
@@ -289,7 +303,7 @@ func (s *c16Server) ServeHTTP(w http.ResponseWriter, r *http.Request) {
 			}
 			out = append(out, fs)
 		}
-		fpWriteMatrix(w, out)
+		fpWriteMatrixV(w, out, s.variant("range", r.Form.Get("query"), r.Form.Get("start")))
 	case strings.HasSuffix(r.URL.Path, "/api/v1/status/config"):
 		fpWriteJSON(w, `{"status":"success","data":{"yaml":"global:\n  scrape_interval: 1m\n"}}`)
 	case strings.HasSuffix(r.URL.Path, "/api/v1/status/flags"):
@@ -353,6 +367,7 @@ type c16Case struct {
 	Problems []c16Problem `json:"problems,omitempty"`
 	Other    []c16Problem `json:"unattributed_problems,omitempty"`
 	Fail     string       `json:"oracle_failure,omitempty"`
+	Known    string       `json:"known_finding_class,omitempty"`
 	nontriv  bool
 	coq      string
 	classes  []string
@@ -499,7 +514,22 @@ func c16GenSelector(r *rand.Rand) string {
 func c16GenExpr(r *rand.Rand) (string, string, bool, bool) {
 	s1 := c16GenSelector(r)
 	s2 := c16GenSelector(r)
-	switch r.Intn(16) {
+	// an always-returning operand (no selector in it): joins with it are NOT fallbacks - the result still depends on the
+	// selector, only `<selector> or <always-returning>` gives the selector a fallback
+	k := pick(r, []string{"hour()", "day_of_week()", "vector(1)", "vector(time())", "(hour() > 9 < 17)", "(day_of_week() > 0)", "vector(0)"})
+	switch r.Intn(22) {
+	case 16:
+		return s1 + " > 0 and on() " + k, "and-on()-always", true, false
+	case 17:
+		return s1 + " unless on() " + pick(r, []string{"(hour() > 25)", "(vector(0) > 1)", "(day_of_week() > 7)"}), "unless-on()-always", true, false
+	case 18:
+		return s1 + " * on() group_left() " + k, "join-group_left-always", true, false
+	case 19:
+		return k + " * on() group_right() " + s1, "join-group_right-always", true, false
+	case 20:
+		return "(" + s1 + " > 0 and on() " + k + ") / " + s2, "and-on()-always-nested", true, false
+	case 21:
+		return k + " and on() " + s1, "always-and-on()-selector", true, false
 	case 0:
 		return s1, "selector", true, false
 	case 1:
@@ -697,7 +727,7 @@ func c16Shift(c *c16Case) {
 	for _, o := range c.others0 {
 		c.Others = append(c.Others, shift(o))
 	}
-	c.Checked, c.Problems, c.Other, c.Instant, c.Range, c.Fail, c.nontriv = nil, nil, nil, nil, nil, "", false
+	c.Checked, c.Problems, c.Other, c.Instant, c.Range, c.Fail, c.Known, c.nontriv = nil, nil, nil, nil, nil, "", "", false
 }
 
 func c16Ptrs(dbs []c16DB) []*c16DB {
@@ -741,7 +771,7 @@ func c16RunOnce(c *c16Case) {
 	c16Shift(c)
 	reqLog := &c16ReqLog{}
 	mk := func(db *c16DB, name string) (*promapi.FailoverGroup, func()) {
-		sv := &c16Server{db: db, eng: newC16Engine()}
+		sv := &c16Server{db: db, eng: newC16Engine(), vs: uint64(c.ID)*7919 + uint64(len(name))}
 		if name == "prom" {
 			sv.log = reqLog
 		}
@@ -878,14 +908,39 @@ func c16RunOnce(c *c16Case) {
 		return a.Severity < b.Severity
 	})
 
-	c16Oracle(c, astSels)
+	c16Oracle(c, astSels, expr.Query.Expr)
 	c.coq = c16Coq(c)
 }
 
 // ---------------------------------------------------------------------------------------------
 // oracle_impl: the property as written, evaluated directly on the database
 
-func c16Oracle(c *c16Case, astSels []*promParser.VectorSelector) {
+// Known finding C16-join-side-unchecked: getNonFallbackSelectors drops ALL join-side selectors of a source as soon as ANY
+// join operand of that source always returns (`(a and on() hour()) / notfound`, `a * on() group_left() vector(1) / notfound`),
+// although only `<selector> or <always returning>` is a documented fallback.  Class predicate (independent of pint's
+// analysis): the unreported selector is not the first selector of the expression, and the expression has a vector-valued
+// operand without any selector (vector(...), or a date/time function without argument).
+const c16KnownJoinSide = "C16-join-side-unchecked"
+
+func c16HasSelectorFreeVectorOperand(root promParser.Node) bool {
+	found := false
+	promParser.Inspect(root, func(n promParser.Node, _ []promParser.Node) error {
+		if call, ok := n.(*promParser.Call); ok {
+			switch call.Func.Name {
+			case "vector":
+				found = true
+			case "hour", "minute", "month", "year", "day_of_week", "day_of_month", "day_of_year", "days_in_month":
+				if len(call.Args) == 0 {
+					found = true
+				}
+			}
+		}
+		return nil
+	})
+	return found
+}
+
+func c16Oracle(c *c16Case, astSels []*promParser.VectorSelector, astRoot promParser.Node) {
 	lb := c16ParseDur(c.LookbackRange)
 	hour := 60 * c16Minute
 	// "an instant query for the selector currently returns series": at every instant of the case (before and after Check)
@@ -1040,6 +1095,9 @@ func c16Oracle(c *c16Case, astSels []*promParser.VectorSelector) {
 		}
 		if !found {
 			c.Fail = fmt.Sprintf("(b) metric of selector %s has no sample in the whole lookback window, no rule produces it and nothing exempts it, but no Bug \"query on nonexistent series\" is reported for it", k)
+			if k != order[0] && c16HasSelectorFreeVectorOperand(astRoot) {
+				c.Known = c16KnownJoinSide
+			}
 			return
 		}
 	}
@@ -1256,6 +1314,10 @@ func runC16(args []string) int {
 		if keep || c.Fail != "" {
 			rep.Cases[strconv.Itoa(c.ID)] = c
 		}
+		if c.Fail != "" && c.Known != "" {
+			rep.failKnown(strconv.Itoa(c.ID), c.Fail, c, c.Known)
+			continue
+		}
 		if c.Fail != "" {
 			rep.fail(strconv.Itoa(c.ID), c.Fail, c)
 			continue
@@ -1272,7 +1334,8 @@ func runC16(args []string) int {
 }
 
 // corpus: a rule expression per file (first line), optional "never:m0,m1" second line, optional "alerting:<name>" /
-// "recording:<name>" lines adding rules of that kind and name to the checked set
+// "recording:<name>" lines adding rules of that kind and name to the checked set, optional "allchecked" line (every selector
+// of the expression must be checked: the oracle does not rely on pint's own list)
 func c16CorpusCase(r *rand.Rand, id int, t0 int64, text string) *c16Case {
 	lines := strings.Split(strings.TrimSpace(text), "\n")
 	c := c16GenCase(r, id, t0)
@@ -1287,6 +1350,8 @@ func c16CorpusCase(r *rand.Rand, id int, t0 int64, text string) *c16Case {
 			n := strings.TrimSpace(strings.TrimPrefix(ln, "alerting:"))
 			c.Alerting = append(c.Alerting, n)
 			c.Content += fmt.Sprintf("  - alert: %s\n    expr: up == 0\n", n)
+		case strings.TrimSpace(ln) == "allchecked":
+			c.AllChecked = true // by construction every selector of this expression must be checked
 		case strings.HasPrefix(ln, "recording:"):
 			n := strings.TrimSpace(strings.TrimPrefix(ln, "recording:"))
 			c.Recording = append(c.Recording, n)
